@@ -1,0 +1,75 @@
+//go:build verif
+
+// Verification hooks (build tag verif): schedule yield points and
+// state inspection for the external test harness. Not compiled by default.
+
+package cache
+
+import (
+	"sync/atomic"
+
+	"github.com/golang/groupcache/lru"
+)
+
+var verifPointFn atomic.Value
+
+// VerifSetPoint install the callback called at yield points (nil to remove)
+func VerifSetPoint(fn func(name string)) {
+	if fn == nil {
+		fn = func(string) {}
+	}
+	verifPointFn.Store(fn)
+}
+
+func verifPoint(name string) {
+	fn, _ := verifPointFn.Load().(func(string))
+	if fn != nil {
+		fn(name)
+	}
+}
+
+// VerifNewEntry create an entry with the given fields
+func VerifNewEntry(status Status, resp *HTTPResponse, createdAt, expiredAt int64) *httpCache {
+	hc := NewHTTPCache()
+	hc.status = status
+	hc.response = resp
+	hc.createdAt = createdAt
+	hc.expiredAt = expiredAt
+	return hc
+}
+
+// VerifEntryFields get the fields of entry
+func (hc *httpCache) VerifEntryFields() (status Status, resp *HTTPResponse, createdAt, expiredAt int64) {
+	hc.mu.RLock()
+	defer hc.mu.RUnlock()
+	return hc.status, hc.response, hc.createdAt, hc.expiredAt
+}
+
+// VerifLen get the count of resident entries of each shard
+func (d *dispatcher) VerifLen() []int {
+	result := make([]int, len(d.list))
+	for i, item := range d.list {
+		item.mu.Lock()
+		result[i] = item.cache.Len()
+		item.mu.Unlock()
+	}
+	return result
+}
+
+// VerifOnEvicted set the callback for each removal of shard (evict or remove)
+func (d *dispatcher) VerifOnEvicted(fn func(shard int, key string)) {
+	for i, item := range d.list {
+		index := i
+		item.mu.Lock()
+		if fn == nil {
+			item.cache.OnEvicted = nil
+		} else {
+			item.cache.OnEvicted = func(key lru.Key, _ interface{}) {
+				k, _ := key.(string)
+				// copy, the key may be a zero-copy view of caller's bytes
+				fn(index, string(append([]byte{}, k...)))
+			}
+		}
+		item.mu.Unlock()
+	}
+}
